@@ -220,7 +220,12 @@ def shape_admits(ip, sh, actual):
         return isinstance(actual, ZInt) or (isinstance(actual, C) and type(actual.v) is int)
     if name == "Str":
         return (isinstance(actual, Z) and ctor(actual.t) == "VStr") or (isinstance(actual, C) and isinstance(actual.v, str))
-    return True            # shapes defined next to their contracts (family members): not restricted here
+    adm = getattr(sh, "admits", None)
+    if adm is not None:
+        return bool(adm(ip, actual))
+    if name in ("JsonVal", "Scalar", "FuncVal", "OneOf"):
+        return isinstance(actual, (Z, C, ZBool, ZInt)) and name in ("JsonVal", "OneOf")
+    return False           # a shape defined next to its contract (a family member): only that contract's own proof builds it
 
 
 def _apply(ip, con, env, f, args, kwargs):
